@@ -61,7 +61,7 @@ Section Refine.
     unfold leader_ack. destruct (n_match n id <? length (n_log n)) eqn:Elt; [|exists s; apply reaches_refl].
     set (n1 := set_match (upd (n_match n) id (length (n_log n))) n).
     assert (R1 : reaches s id n1 [] (set_node s id n1)).
-    { eapply reaches_step; [apply M_selfack; exact Er|reflexivity|cbn; rewrite app_nil_r; reflexivity]. }
+    { eapply reaches_step; [apply M_selfack; [exact Er|unfold n; lia]|reflexivity|cbn; rewrite app_nil_r; reflexivity]. }
     set (s1 := set_node s id n1) in *.
     assert (Hn1 : nodes s1 id = n1) by (apply (proj1 (proj2 R1))).
     assert (R2 : reaches s1 id (maybe_commit c0 c1 n1) [] (set_node s1 id (maybe_commit c0 c1 (nodes s1 id)))).
